@@ -128,6 +128,14 @@ func (t tupleVariation) calculateScalar(coords []VarCoord, sharedTuples [][]VarC
 		}
 	}
 
+	// invalid font : the axis count of 'gvar' differs from the one of 'fvar'
+	if endIdx > len(peakTuple) {
+		endIdx = len(peakTuple)
+	}
+	if endIdx > len(coords) {
+		endIdx = len(coords)
+	}
+
 	startTuple, endTuple := t.IntermediateTuples[0].Values, t.IntermediateTuples[1].Values
 	hasIntermediate := startTuple != nil
 
@@ -372,6 +380,9 @@ func (gvar gvar) applyDeltasToPoints(glyph gID, coords []VarCoord, points []cont
 			ptIndex := uint16(i)
 			if !applyToAll {
 				ptIndex = tuple.pointNumbers[i]
+			}
+			if int(ptIndex) >= len(deltas) { // invalid point number
+				continue
 			}
 			deltas[ptIndex].isExplicit = true
 			deltas[ptIndex].X += float32(xDeltas[i]) * scalar
